@@ -417,6 +417,19 @@ func init() {
 				fail(*f)
 			}
 		}
+		// boundary sizes of nesting and of flat chains: all entry points (and the model) must agree there as well
+		for _, n := range []int{15, 16, 17, 63, 64, 65, 127, 128, 129, 255, 256, 257, 300, 1000} {
+			for _, text := range []string{strings.Repeat("(", n) + "MIT" + strings.Repeat(")", n), "MIT" + strings.Repeat(" OR ISC", n), "(MIT)" + strings.Repeat(" AND (ISC)", n)} {
+				comp := 1
+				if !strings.Contains(text, " ") {
+					comp = 0
+				}
+				count("boundary_sizes")
+				if f := c04String(text, comp); f != nil {
+					fail(*f)
+				}
+			}
+		}
 		pool := func() string {
 			switch rng.Intn(5) {
 			case 0:
